@@ -95,7 +95,7 @@ pub fn gen(ctx: &Ctx) {
     let mut out = Out::new(&ctx.dir, "router");
     out.rule = "case = (registration sequence, list of lookups). Exhaustive: every single pattern of <=3 segments over {a,b,:p,:q,*,**,''} and every ordered pair \
                 (thorough: triple) of patterns of <=2 segments over {a,:p,*,**} (thorough: <=3 / 5 symbols), each looked up with every path of <=3 segments over {a,b,c,''} \
-                with and without leading slash; random: tables of 1..40 routes over 9 std/custom methods with shuffled order, re-registrations, late-failing parameterised candidates. \
+                with and without leading slash; random: tables of 1..40 routes over 9 std/custom methods with shuffled order, re-registrations, late-failing parameterised candidates; path segments and parameter values include '#', '?', ';', '%', ':' '*' and non-ASCII bytes (all ordinary bytes for the router). \
                 non-trivial = at least one lookup selects a non-fallback route".into();
     let paths: Vec<String> = {
         let mut v = Vec::new();
@@ -139,7 +139,7 @@ pub fn gen(ctx: &Ctx) {
     }
     // random larger tables
     let methods = ["0", "1", "2", "3", "4", "5", "6", "7", "c50555247", "c474554", "c4c494e4b"];
-    let words = ["a", "b", "c", "users", "api", "v1", "x", "", "é", ":id", ":name", ":p", "*", "**", "a b", ":", "***", "*a"];
+    let words = ["a", "b", "c", "users", "api", "v1", "x", "", "é", ":id", ":name", ":p", "*", "**", "a b", ":", "***", "*a", "c#", "a?b"];
     let n = if ctx.thorough { 20000 } else { 2500 };
     for _ in 0..n {
         let nr = rng.range(1, 40) as usize;
@@ -171,7 +171,7 @@ pub fn gen(ctx: &Ctx) {
                 // derive a path from a registered pattern so that candidates match or fail late
                 let base = rng.pick(&pats).clone();
                 let segs: Vec<String> = base.trim_start_matches('/').split('/').map(|s| {
-                    if s.starts_with(':') || s == "*" { rng.pick(&["a", "b", "users", "42", ""]).to_string() }
+                    if s.starts_with(':') || s == "*" { rng.pick(&["a", "b", "users", "42", "", "c#", "q?x", "%2F", "a;b=1", ":id", "*", "**", "a b", "é", "#", "?", "a#/b"]).to_string() }
                     else if s == "**" { ["x/y", "z", "", "a/b/c"][rng.below(4) as usize].to_string() }
                     else if rng.chance(1, 8) { "zz".to_string() } else { s.to_string() }
                 }).collect();
@@ -182,7 +182,7 @@ pub fn gen(ctx: &Ctx) {
                 p
             } else {
                 let len = rng.range(0, 4) as usize;
-                let segs: Vec<&str> = (0..len).map(|_| *rng.pick(&["a", "b", "c", "users", "api", "v1", "", "é", "x"])).collect();
+                let segs: Vec<&str> = (0..len).map(|_| *rng.pick(&["a", "b", "c", "users", "api", "v1", "", "é", "x", "c#", "a?b", "#", "%23", ":p", "*"])).collect();
                 format!("/{}", segs.join("/"))
             };
             let m = if rng.chance(5, 6) { *rng.pick(&ms) } else { *rng.pick(&methods) };
